@@ -344,6 +344,19 @@ def axis_bounds(ctx, F):
                 ok = ok and bool(item) and a[3] == ('field', item[0], '0') and a[4] == ('field', ('field', item[0], '1'), '0') and a[5] == ('field', ('field', item[0], '1'), '1')
                 r0 = a[0][1] if (a[0][0] == 'field' and a[0][2] == '0') else a[0]
                 ok = ok and r0[0] == 'bin' and r0[1].startswith('Mul') and r0[2] == ('const', 2) and r0[3] == a[3]
+            # the system has one pair of rows per axis and one column per axis: 2 x 1 for axis_bounds(dim..) is (2, dim); hyperrectangle of n
+            # intervals is (2n, n) with 2n bias entries
+            if ok:
+                def twice(e, n):
+                    e = s(e)
+                    e = e[1] if (e[0] == 'field' and e[2] == '0') else e
+                    return e[0] == 'bin' and e[1].startswith('Mul') and {e[2], e[3]} == {('const', 2), n}
+                msh, bsh = s(a[1][2][0]), s(a[2][2][0])
+                if want == 'single':
+                    ok = msh == ('agg', 'tuple', (('const', 2), ('param', 'dim'))) and bsh == ('const', 2)
+                else:
+                    n_ = msh[2][1] if (msh[0] == 'agg' and msh[1] == 'tuple' and len(msh[2]) == 2) else None
+                    ok = n_ is not None and (is_call(n_, '[T]::len', 'Vec::len') or n_[0] == 'param') and twice(msh[2][0], n_) and twice(bsh, n_)
         (ctx.ok if ok else ctx.bad)('C14.R3', q, 'all-zero system + place_axis_bounds(%s)' % ('row 0, axis, lower, upper' if want == 'single' else 'row 2i, axis i, interval i for every i') if ok else
                                     '%s does not place the bounds of each axis on its own pair of rows of an all-zero system' % q, c.span)
 
